@@ -209,13 +209,19 @@ func (h *hist) settle() {
 			}
 		}
 		h.net.mu.Unlock()
+		var closedQ int64
 		for _, e := range h.all() {
-			q, _ := kcp.VerifSessionBacklog(e.s)
-			cur[2] += int64(q)
+			// requests queued on a closed session whose postProcess has returned stay there for
+			// ever: they only have to be stable, not zero
+			if q, dead := kcp.VerifSessionBacklog(e.s); dead {
+				closedQ += int64(q)
+			} else {
+				cur[2] += int64(q)
+			}
 		}
 		g, p := kcp.VerifPoolCounts()
-		cur[3] = int64(g + p)
-		if cur == prev && waiting == 0 {
+		cur[3] = int64(g+p) + closedQ
+		if cur == prev && waiting == 0 && cur[2] == 0 {
 			stable++
 			if stable >= 4 {
 				return
@@ -939,7 +945,7 @@ func Run(o *hx.Out, g *hx.Rng, tier string) {
 	defer func() { kcp.SystemTimedSched = saved }()
 	selfCheck(o)
 	nsyn, nhist := 60, 6*len(cryptKinds)+12
-	budget := 45 * time.Second
+	budget := 35 * time.Second
 	if tier == "thorough" {
 		nsyn, nhist = 600, 40*len(cryptKinds)
 		budget = 11 * time.Minute
